@@ -126,7 +126,7 @@ KN = ('MVoro.Proofs.Aux20', 'MVoro.KnnProofs')
 def kn(name, orig, doc): return (name, KN[0], KN[1], orig, doc)
 SP = ('MVoro.Proofs.Aux20', 'MVoro.SphereProofs')
 def sp(name, orig, doc): return (name, SP[0], SP[1], orig, doc)
-prop('C20', 'auxiliary structures return exact nearest neighbours and enclosing spheres', ['MVoro.Proofs.Aux20'], [
+prop('C20', 'auxiliary structures return exact nearest neighbours and enclosing spheres', ['MVoro.Proofs.Aux20', 'MVoro.Proofs.MEBProofs'], [
   kn('cell_lower_bound', 'minDist2_lower_bound', 'T20.1 `min_distance_squared` of a grid cell is a lower bound of the squared distance to every point inside the cell (needs the cell extent loc .. loc+width componentwise)'),
   kn('closest_loc_in_cell', 'closestLoc_inBox', 'T20.1 `closest_loc` lies in the cell'),
   kn('bounded_heap_insert', 'insertK_spec', 'T20.1 one insertion into the bounded heap keeps "the k smallest distances seen so far, ascending"'),
@@ -137,6 +137,7 @@ prop('C20', 'auxiliary structures return exact nearest neighbours and enclosing 
   kn('pinned_placement_breaks_lower_bound', 'pinned_lower_bound_fails', 'T20.1 (negative) with `c_width.x` on all axes (the pinned tree) a particle lies outside the extent of its cell and the lower bound fails'),
   kn('pinned_placement_wrong_answer', 'pinned_knn_ne_spec', 'T20.1 (negative) concrete non-cubic box on which the pinned placement returns a wrong nearest neighbour; the componentwise placement returns the right one'),
   sp('certificate_implies_minimal', 'minimal_of_certificate_V3', 'T20.3 a ball containing all points whose centre is a convex combination of points on its boundary is the minimal enclosing ball'),
+  ('certificate_checker_sound', 'MVoro.Proofs.MEBProofs', 'MVoro.MEBProofs', 'checkCert_sound', 'T20.3 (executable form, over Q) a ball accepted by `MEB.checkCert` contains every point and no enclosing ball has a smaller squared radius: what the driver reports as the exact minimum IS the minimum'),
   sp('two_point_sphere_minimal', 'sphere2_minimal', 'T20.3 `from_two_points` is the minimal sphere containing both'),
   sp('extend_keeps_points', 'extend_keeps_contained', 'T20.2 `extend` keeps every previously contained point'),
   sp('extend_contains_new_point', 'extend_contains_new', 'T20.2 and contains the new one'),
